@@ -488,6 +488,10 @@ class AwareASTNode(DataClassSerializeMixin):
 
             c._set_parent(self, f, i)
 
+        # Children may have changed while this node was detached (they are updated in place),
+        # so the cached content id must be refreshed before the node becomes visible again
+        self._set_content_id()
+
         # Now we can safely attach this node to the registry
         AwareASTNode._nodes[self.id] = self
 
